@@ -1583,7 +1583,14 @@ def gen_tracked_circuit(rng, width, ncmds, opts=None):
         args, tys_ = [], []
         for _ in range(k):
             fw = free_wires()
-            if live and (not fw or rng.random() < 0.7):
+            held = [w for w in table if w is not None and copyable(w.t)]
+            if held and rng.random() < 0.12:
+                # a wire that is (also) tracked, passed EXPLICITLY: an ordinary use of a copyable value; the index
+                # keeps denoting it
+                w = rng.choice(held)
+                args.append(w.w)
+                tys_.append(w.t)
+            elif live and (not fw or rng.random() < 0.7):
                 i = live.pop()
                 args.append(i)
                 tys_.append(table[i].t)
@@ -1614,6 +1621,39 @@ def gen_tracked_circuit(rng, width, ncmds, opts=None):
         outs = [ty if isinstance(a, int) or rng.random() < 0.6 else g.gen_type((), 0) for a, ty in zip(args, tys_)]
         return g.custom(tys_, outs + extra, rng.choice(["H", "CX", "Rz", "gate"])), outs + extra
 
+    layers = []  # (key, kind, [(op, args, outs)]) — commands whose arguments are all indices, re-appliable
+
+    def replay_layer():
+        """the SAME Command objects applied once more (`layer = [H(0), CX(0, 1)]; extend(*layer); extend(*layer)`):
+        every index denotes the wire most recently stored there, at each application"""
+        key, kind, items = rng.choice(layers)
+        for _, args, _ in items:
+            if any(a >= len(table) or table[a] is None for a in args):
+                return False
+        if kind == "add":
+            op, args, outs = items[0]
+            if any(not teq(table[a].t, ty) for a, ty in zip(args, op_ins(op))):
+                return False
+            n = g.fn()
+            g.emit(["add", t, n, op, list(args), g.meta(), {"obj": key}])
+            after_add(n, args, outs)
+        else:
+            sim = list(table)
+            for op, args, outs in items:
+                if any(sim[a] is None or not teq(sim[a].t, ty) for a, ty in zip(args, op_ins(op))):
+                    return False
+            names, post = [], []
+            for op, args, outs in items:
+                n = g.fn()
+                names.append(n)
+                after_add(n, args, outs, post)
+            g.emit(["extend", t, names, [[op, list(args)] for op, args, _ in items], {"obj": key}])
+            r.pool.extend(post)
+        return True
+
+    def op_ins(op):
+        return op[2][1] if op[0] == "@custom" else [BOOL]
+
     for step in range(ncmds):
         if step == bad_at:
             x = rng.random()
@@ -1631,22 +1671,35 @@ def gen_tracked_circuit(rng, width, ncmds, opts=None):
             return prog
         x = rng.random()
         live = [i for i, w in enumerate(table) if w is not None]
-        if x < 0.5:
+        if layers and rng.random() < 0.12 and replay_layer():
+            pass
+        elif x < 0.5:
             args, tys_ = gate_args(rng.randint(1, 3))
             op, outs = gate(args, tys_)
             n = g.fn()
-            g.emit(["add", t, n, op, args, g.meta()])
+            if args and all(isinstance(a, int) for a in args):
+                key = f"L{len(layers)}"
+                layers.append((key, "add", [(op, list(args), outs)]))
+                g.emit(["add", t, n, op, args, g.meta(), {"obj": key}])
+            else:
+                g.emit(["add", t, n, op, args, g.meta()])
             after_add(n, args, outs)
         elif x < 0.6:
-            coms, names, post = [], [], []
+            coms, names, post, items = [], [], [], []
             for _ in range(rng.randint(1, 3)):
                 args, tys_ = gate_args(rng.randint(1, 2))
                 op, outs = gate(args, tys_)
                 n = g.fn()
                 names.append(n)
                 coms.append([op, args])
+                items.append((op, list(args), outs))
                 after_add(n, args, outs, post)
-            g.emit(["extend", t, names, coms])
+            if all(args and all(isinstance(a, int) for a in args) for _, args, _ in items):
+                key = f"L{len(layers)}"
+                layers.append((key, "extend", items))
+                g.emit(["extend", t, names, coms, {"obj": key}])
+            else:
+                g.emit(["extend", t, names, coms])
             r.pool.extend(post)
         elif x < 0.63:
             args, tys_ = gate_args(rng.randint(1, 3))
